@@ -19,6 +19,9 @@ func AvailableDiskSize(dirPath string) (uint64, error) {
 
 // CopyDir 拷贝 src 目录到 dest 目录, 排除指定列表中的文件
 func CopyDir(src, dest string, exclude []string) error {
+	// filepath.Walk 回调收到的是规范化后的路径, 去除源目录前缀前需先规范化 src,
+	// 否则形如 "a//b" "./a/b" "a/./b" 的源路径无法匹配, 备份失败
+	src = filepath.Clean(src)
 	// 目标目录不存在则创建
 	if _, err := os.Stat(dest); os.IsNotExist(err) {
 		if err := os.MkdirAll(dest, os.ModePerm); err != nil {
